@@ -11,16 +11,16 @@ type waiter struct {
 }
 
 type chanCore struct {
-	id     int
-	cap    int
-	buf    []any
-	bufVC  []rclock // race mode: clock of the sender of each buffered item
-	recvVC []rclock // race mode: clocks of completed receives (k-th receive -> (k+cap)-th send)
-	nsend  int
+	id      int
+	cap     int
+	buf     []any
+	bufVC   []rclock // race mode: clock of the sender of each buffered item
+	recvVC  []rclock // race mode: clocks of completed receives (k-th receive -> (k+cap)-th send)
+	nsend   int
 	closeVC rclock
-	closed bool
-	recvq  []*waiter
-	sendq  []*waiter
+	closed  bool
+	recvq   []*waiter
+	sendq   []*waiter
 	obj
 }
 
